@@ -115,9 +115,14 @@ impl Prop for C22 {
                 out.push(format!("timer {} {}", b(e), b(w)));
             }
             if rng.chance(1, 2) {
-                // a late publish request collects a pending status change
-                out.push(format!("pub {}", rid));
+                // late publish requests collect what has piled up (kept data notifications: rows #10
+                // then #5 — "more notifications" — and finally a pending status change)
+                for _ in 0..rng.range(1, 4) {
+                    out.push(format!("pub {}", rid));
+                    rid += 1;
+                }
                 out.push("timer 1 0".to_string());
+                out.push(format!("pub {}", rid));
             }
         }
     }
